@@ -33,7 +33,10 @@ ENCODED = ["twisted.mail.smtp:xtext_encode", "twisted.mail.smtp:xtext_decode",
            "twisted.mail.imap4:modified_base64", "twisted.mail.imap4:modified_unbase64"]
 BOUNDS = {"quick": {"x": 3, "u": 2}, "thorough": {"x": 4, "u": 3}}
 B = {}
-BOUNDS_TEXT = ("xtext: every string of <= x code points < 256 (x=3 quick, 4 thorough).  IMAP modified UTF-7: "
+BOUNDS_TEXT = ("utf7_run: one symbolic non-ASCII character repeated 29/30/57/58 times (astral: 15 times), optionally "
+               "followed by one symbolic printable character.  corpus (concrete, real code, outside the exhaustive "
+               "claim): runs of 1..300 characters.  "
+               "xtext: every string of <= x code points < 256 (x=3 quick, 4 thorough).  IMAP modified UTF-7: "
                "every string of <= u code points (u=2 quick, 3 thorough) over all of Unicode except surrogates, "
                "case-split by character class (printable ASCII, '&', control/DEL, Latin-1, BMP, astral)")
 OUTSIDE = ["longer strings (both codecs work character by character; the only cross-character state is the "
@@ -162,6 +165,12 @@ def _b2a_base64_text(data):
         out.append("=")
     out.append("\n")
     return "".join(out)
+
+
+def _encodebytes(data):
+    """base64.encodebytes (MIME: one b2a_base64 line per 57 input bytes) over LBytes"""
+    text = lbytes._s(data)
+    return lbytes.LBytes("".join([_b2a_base64_text(text[i:i + 57]) for i in range(0, len(text), 57)]))
 
 
 class _binascii:
@@ -349,8 +358,58 @@ _C = lift.lift("twisted.python.compat", names=["networkString"], encode_calls=Tr
 S = lift.lift("twisted.mail.smtp", names=["xtext_encode", "xtext_decode"], fstrings=True,
               overrides={"networkString": _C.networkString}, extra_shims={"_vl_int": _l_int})
 I = lift.lift("twisted.mail.imap4", names=["modified_base64", "modified_unbase64", "encoder", "decoder"],
-              encode_calls=True, overrides={"binascii": _binascii, "memory_cast": _cview},
+              encode_calls=True, overrides={"binascii": _binascii, "memory_cast": _cview,
+                                            "encodebytes": _encodebytes},
               extra_shims={"set": _CharSet})
+from twisted.mail import imap4 as _RI, smtp as _RS  # noqa: E402  (the real modules, for the degraded mode)
+
+# ---- degraded mode ---------------------------------------------------------------------------------
+# The lifted functions can only run helpers that have a port above.  If the code under test calls
+# anything else on its data (a C function given an LBytes raises TypeError / AttributeError), the
+# harness does not give up with a harness error: it makes the input concrete (CrossHair realises it;
+# other values are tried on later paths) and evaluates the SAME property on the REAL functions.  The
+# verdict for that input then comes from the real code; exhaustiveness is lost and reported
+# (DEGRADED is copied into the evidence assumptions, the affected shards end inconclusive).
+_FOREIGN = (TypeError, AttributeError, NotImplementedError)
+DEGRADED = []
+
+
+def _concrete(x):
+    import sys
+    if "crosshair" in sys.modules:
+        from crosshair.core import deep_realize
+        from crosshair.tracers import NoTracing
+        with NoTracing():
+            return deep_realize(x)
+    return x
+
+
+def _note_degraded(what, exc):
+    msg = "DEGRADED: lifted %s raised %s: %s - evaluated on the real code with concrete inputs" % (
+        what, type(exc).__name__, str(exc)[:120])
+    if msg not in DEGRADED:
+        DEGRADED.append(msg)
+        ASSUMPTIONS.append(msg)
+
+
+def _probe():
+    """run the lifted functions once on concrete samples (short, long, astral) at import"""
+    if I.__real__:
+        return
+    for sample in ("a&b", "\xe9\n", "\u4e2d" * 30, "\U0001f600" * 15 + "x"):
+        try:
+            I.decoder(I.encoder(sample)[0])
+        except _FOREIGN as e:
+            _note_degraded("imap4 codec", e)
+            break
+        except Exception:
+            pass
+    try:
+        S.xtext_decode(S.xtext_encode("a+=\xff\x00")[0])
+    except _FOREIGN as e:
+        _note_degraded("xtext codec", e)
+    except Exception:
+        pass
 
 _HEXU = "0123456789ABCDEF"
 _MB64 = "ABCDEFGHIJKLMNOPQRSTUVWXYZabcdefghijklmnopqrstuvwxyz0123456789+,"
@@ -379,15 +438,10 @@ def _xtext_form(enc):
     return True
 
 
-def xtext(s: str) -> bool:
-    """
-    pre: len(s) <= B['x']
-    pre: all(ord(c) < 256 for c in s)
-    post: _
-    """
-    enc, used = S.xtext_encode(s)
+def _xtext_prop(encode, decode, s):
+    enc, used = encode(s)
     e = t(enc)
-    dec, used2 = S.xtext_decode(enc)
+    dec, used2 = decode(enc)
     api.obs((e, used, dec, used2))
     cover()
     if not _xtext_form(e):
@@ -395,6 +449,22 @@ def xtext(s: str) -> bool:
     if used != len(s) or used2 != len(e):
         return False
     return dec == s
+
+
+def xtext(s: str) -> bool:
+    """
+    pre: len(s) <= B['x']
+    pre: all(ord(c) < 256 for c in s)
+    post: _
+    """
+    if not any(d.startswith("DEGRADED: lifted xtext") for d in DEGRADED):
+        try:
+            return _xtext_prop(S.xtext_encode, S.xtext_decode, s)
+        except _FOREIGN as e:
+            if S.__real__:
+                raise
+            _note_degraded("xtext codec", e)
+    return _xtext_prop(_RS.xtext_encode, _RS.xtext_decode, _concrete(s))
 
 
 # ---- IMAP4 modified UTF-7 ------------------------------------------------------------------------
@@ -434,13 +504,8 @@ def _mutf7_form(enc):
     return True
 
 
-def utf7(s: str) -> bool:
-    """
-    pre: 1 <= len(s) <= B['u']
-    pre: all(not (0xD800 <= ord(c) <= 0xDFFF) for c in s)
-    post: _
-    """
-    enc, used = I.encoder(s)
+def _utf7_prop(encoder, decoder, s):
+    enc, used = encoder(s)
     e = t(enc)
     api.obs((e, used))
     cover()
@@ -448,9 +513,58 @@ def utf7(s: str) -> bool:
         return False
     if used != len(s):
         return False
-    dec, used2 = I.decoder(enc)
+    dec, used2 = decoder(enc)
     api.obs((dec, used2))
     return dec == s and used2 == len(e)
+
+
+def _utf7(s):
+    if not any(d.startswith("DEGRADED: lifted imap4") for d in DEGRADED):
+        try:
+            return _utf7_prop(I.encoder, I.decoder, s)
+        except _FOREIGN as e:
+            if I.__real__:
+                raise
+            _note_degraded("imap4 codec", e)
+    return _utf7_prop(_RI.encoder, _RI.decoder, _concrete(s))
+
+
+def utf7(s: str) -> bool:
+    """
+    pre: 1 <= len(s) <= B['u']
+    pre: all(not (0xD800 <= ord(c) <= 0xDFFF) for c in s)
+    post: _
+    """
+    return _utf7(s)
+
+
+_RUNS = [29, 30, 57, 58]
+
+
+def utf7_run(c: str, nsel: int, tail: str) -> bool:
+    """
+    pre: len(c) == 1 and ord(c) >= 0x80 and not (0xD800 <= ord(c) <= 0xDFFF)
+    pre: 0 <= nsel <= len(_RUNS) and len(tail) <= 1
+    pre: all(0x20 <= ord(x) <= 0x7e for x in tail)
+    post: _
+    """
+    # long base64 runs: one symbolic non-ASCII character repeated 29 / 30 / 57 / 58 times (the run
+    # then crosses the 57-byte / 76-character line length of MIME base64), an astral character
+    # repeated 15 times; optionally followed by one symbolic printable character
+    k = 0
+    for i in range(len(_RUNS) + 1):
+        if nsel == i:
+            k = i
+    if k == len(_RUNS):
+        if ord(c) < 0x10000:
+            return True
+        n = 15
+    else:
+        if ord(c) >= 0x10000:
+            return True
+        n = _RUNS[k]
+    cc = "".join([c[0]])
+    return _utf7(cc * n + ("".join([tail[0]]) if len(tail) == 1 else ""))
 
 
 _CLASSES = {
@@ -478,13 +592,63 @@ def _utf7_shards(tier):
     return out
 
 
+def _corpus():
+    runs = []
+    for ch in ("\xe9", "\u4e2d", "\u20ac", "\x01", "\n"):
+        for n in (1, 14, 15, 19, 20, 28, 29, 30, 38, 39, 57, 58, 59, 100, 115, 300):
+            runs.append(ch * n)
+            runs.append("a" + ch * n + "&")
+    for n in (1, 7, 14, 15, 16, 29, 30, 100):
+        runs.append("\U0001f600" * n)
+        runs.append("\U0010ffff" * n + "-")
+    runs += ["\xe9a" * 40, "&" * 100, "x" * 1000, "~peter/mail/\u65e5\u672c\u8a9e/\u53f0\u5317" * 9,
+             "".join(chr(0x100 + i) for i in range(200)), "".join(chr(i) for i in range(0x80)) * 2]
+    xs = ["+" * 100, "=" * 77, "".join(chr(i) for i in range(256)), "a" * 1000, "\xff" * 58, " \t\r\n" * 30]
+    return runs, xs
+
+
+def corpus(tier):
+    """long concrete inputs, evaluated on the REAL functions (real bytes, real C codecs): lengths far
+    beyond the symbolic bound, chosen around the line lengths of MIME base64 (57 bytes / 76
+    characters) and typical buffer sizes.  Not part of the bounded-exhaustive claim; a failure is
+    handed to the replay path like any counterexample."""
+    runs, xs = _corpus()
+    n = 0
+    for s in runs:
+        n += 1
+        try:
+            ok = _utf7_prop(_RI.encoder, _RI.decoder, s)
+        except Exception:
+            ok = False
+        if not ok:
+            return {"status": "refuted", "obligations": len(runs) + len(xs), "discharged": n - 1, "queries": 0,
+                    "solver_time_s": 0.0, "samples": [], "cex": {"s": s}, "replay_harness": "utf7"}
+    for s in xs:
+        n += 1
+        try:
+            ok = _xtext_prop(_RS.xtext_encode, _RS.xtext_decode, s)
+        except Exception:
+            ok = False
+        if not ok:
+            return {"status": "refuted", "obligations": len(runs) + len(xs), "discharged": n - 1, "queries": 0,
+                    "solver_time_s": 0.0, "samples": [], "cex": {"s": s}, "replay_harness": "xtext"}
+    return {"status": "confirmed", "obligations": n, "discharged": n, "queries": 0, "solver_time_s": 0.0,
+            "samples": [{"len": len(runs[k]), "head": runs[k][:2]} for k in (5, 22, 170)]}
+
+
+CUSTOM = [corpus]
+
 HARNESSES = [
+    H(utf7_run, shards=[("nsel == %d" % i, "len(tail) == %d" % j) for i in range(len(_RUNS) + 1) for j in (0, 1)],
+      timeout={"quick": 90, "thorough": 600}),
     H(xtext, shards=lambda tier: [("len(s) == %d" % k,) for k in range(0, BOUNDS[tier]["x"] + 1)],
       timeout={"quick": 90, "thorough": 900}),
     H(utf7, shards=_utf7_shards, timeout={"quick": 90, "thorough": 900}),
 ]
 
 VECTORS = {
+    "utf7_run": [("\xe9", 0, ""), ("\u4e2d", 1, "a"), ("\u20ac", 2, "-"), ("\xff", 3, "&"), ("\U0001f600", 4, ""),
+                 ("\U0010ffff", 4, "z")],
     "xtext": [("",), ("abc",), ("a+b=c",), (" \x00\xff",), ("+",), ("~!",), ("\x7f\x80",)],
     "utf7": [("Hello",), ("&",), ("a&b",), ("\n",), ("\t\r",), ("\xe9\n",), ("日本語",),
              ("~peter/mail/日本語/台北",), ("\U0001f600",), ("\x00&\x00",), ("a€b",),
@@ -579,6 +743,11 @@ def selftest():
             if "_" not in a + c:
                 assert want == got, (a, c, want, got)
             n += 1
+    import base64
+    for k in (0, 1, 56, 57, 58, 59, 113, 114, 115, 200):
+        raw = bytes((i * 7 + k) % 256 for i in range(k))
+        assert bytes(_encodebytes(lbytes.LBytes(raw))) == base64.encodebytes(raw), k
+        n += 1
     assert [bytes(x) for x in _cview(b"a&-", "c")] == list(memoryview(b"a&-").cast("c"))
     cs = _CharSet(map(chr, range(0x20, 0x7F))) - {"&"}
     real = set(map(chr, range(0x20, 0x7F))) - {"&"}
@@ -586,3 +755,6 @@ def selftest():
         assert (chr(o) in cs) == (chr(o) in real)
         n += 1
     return n
+
+
+_probe()
